@@ -504,7 +504,11 @@ func genDoc(r rng, density float64) map[string]any {
 	doc := map[string]any{}
 	for _, k := range cfgLeafInts {
 		if r.p(density) {
-			setPath(doc, k, r.n(0, 9))
+			v := r.n(0, 9)
+			if r.p(0.12) {
+				v = 0 // a value that IS configured and is the zero value of its type
+			}
+			setPath(doc, k, v)
 		}
 	}
 	for _, k := range cfgLeafStrs {
